@@ -138,8 +138,8 @@ def ops : List (String × Op) := [
       let pre ← pStr
       let step ← pInt
       let ns ← pList pNat
-      let n := ns.foldl (· + ·) 0
-      pure ("ok " ++ " ".intercalate ((locusTags pre step n).map enc)))
+      -- one call over several collections: the offset runs on from collection to collection
+      pure ("ok " ++ " ".intercalate ((collectionTags pre step ns).flatten.map enc)))
 ]
 
 end BioCantor.Driver.Tbl
